@@ -1090,11 +1090,16 @@ impl OutstationSession {
     async fn write_error_response(
         &mut self,
         io: &mut PhysLayer,
-        respond_to: FragmentAddr,
+        from: FragmentInfo,
         writer: &mut TransportWriter,
         err: TransportRequestError,
         database: &DatabaseHandle,
     ) -> Result<(), RunError> {
+        // nothing is ever transmitted in reply to a broadcast
+        if from.broadcast.is_some() {
+            return Ok(());
+        }
+        let respond_to = from.addr;
         let seq = match err {
             TransportRequestError::HeaderParseError(err) => match err {
                 HeaderParseError::UnknownFunction(seq, _) => Some(seq),
